@@ -3,6 +3,7 @@ the same job runs on the real runners, property-specific comparators look at L1 
 from __future__ import annotations
 
 import collections
+import re
 import warnings
 
 from . import build, tlc
@@ -21,17 +22,29 @@ def model_predict(jobs, prop="none", workers=4, procs=None, timeout=1800, allow_
     return {k: norm_model(v) for k, v in res.items()}, stats
 
 
+def _strip(path):
+    return re.sub(r"\[\d+\]", "", path)
+
+
 def norm_model(m):
-    """JSON produced by ToJson -> same shape as build.observe()."""
+    if m.get("ismap"):
+        return m
+    """JSON produced by ToJson -> same shape as build.observe() (map item markers "[i]" are kept in
+    `ipath`/`iframe` and stripped from path/frame, as the real bodies cannot see the item index)."""
     vals = m["values"] if isinstance(m["values"], dict) else {}
     calls, allcalls = [], []
     for c in m["calls"]:
-        allcalls.append({"path": c["path"], "idx": c["idx"], "step": c["step"], "frame": c["frame"], "node": c["node"], "kind": c.get("kind", "func")})
+        allcalls.append({"path": c["path"], "idx": c["idx"], "step": c["step"], "frame": c["frame"], "node": c["node"], "kind": c.get("kind", "func"),
+                         "args": [list(a) for a in c["args"]]})
         if c.get("kind") == "graph":
             continue            # the real call log has leaf bodies only
-        calls.append({"path": c["path"], "idx": c["idx"], "args": [list(a) for a in c["args"]],
-                      "step": c["step"], "frame": c["frame"], "node": c["node"], "dec": list(c["dec"])})
-    return {"status": m["status"], "values": vals, "err": m["err"], "pause": m["pause"], "calls": calls,
+        calls.append({"path": _strip(c["path"]), "idx": c["idx"], "args": [list(a) for a in c["args"]],
+                      "step": c["step"], "frame": _strip(c["frame"]), "node": c["node"], "dec": list(c["dec"]),
+                      "ipath": c["path"], "iframe": c["frame"]})
+    err = dict(m["err"])
+    err["ipath"] = err["path"]
+    err["path"] = _strip(err["path"])
+    return {"status": m["status"], "values": vals, "err": err, "pause": m["pause"], "calls": calls,
             "allcalls": allcalls, "steps": m["steps"], "raw_keys": list(m.get("raw_keys", [])), "aux": m.get("aux", {}), "done": [d["path"] for d in m.get("done", [])]}
 
 
